@@ -74,6 +74,9 @@ func execute(c Case, tag string) vt.Verdict {
 		if p.Kind == "attr-value-unsigned" {
 			continue // KF-C02-02 (C02's finding; attribute bytes and type are still compared)
 		}
+		if (p.Kind == "child-missing" || p.Kind == "dataset-missing" || p.Kind == "group-missing" || p.Kind == "link-invisible") && underDense(ex.M, p.Path) {
+			continue // KF-C03-02 (C03's finding: the reader never lists the members of a dense group)
+		}
 		return vt.Bad("%d problem(s) after reopen, first: %s (%d/%d ops succeeded)", len(ps), p, ok, len(c.Ops))
 	}
 	// the stored bytes, seen by the independent decoder: raw data of every type (also those without a typed read,
@@ -96,6 +99,16 @@ func execute(c Case, tag string) vt.Verdict {
 	return vt.Pass()
 }
 
+// underDense: p is (inside) a group created with CreateDenseGroup.
+func underDense(m *hist.Model, p string) bool {
+	for q := p; q != "" && q != "/"; q = q[:strings.LastIndex(q, "/")] {
+		if o := m.Resolve(q); o != nil && o.Dense {
+			return true
+		}
+	}
+	return false
+}
+
 // ---- (i) every precedence-respecting order of the eight named operations ------------------------------------
 
 var xSpec = &hist.DSpec{Type: "i32", Dims: []uint64{6}, Chunk: []uint64{4}, MaxDims: []uint64{hdf5.Unlimited}}
@@ -103,14 +116,14 @@ var ySpec = &hist.DSpec{Type: "f64", Dims: []uint64{5}}
 
 func namedOps() []hist.Op {
 	return []hist.Op{
-		{K: "dataset", Path: "/x", D: xSpec},                                            // 0 create X
-		{K: "dataset", Path: "/y", D: ySpec},                                            // 1 create Y
-		{K: "write", Path: "/x", Seed: 11, Mode: hist.ModeSeq},                           // 2 write X
-		{K: "write", Path: "/y", Seed: 22, Mode: hist.ModeSeq},                           // 3 write Y
-		{K: "attr", Path: "/x", Name: "ax", A: &hist.AttrVal{Kind: "str", N: 20, Seed: 1}}, // 4 attribute on X
+		{K: "dataset", Path: "/x", D: xSpec},                                                // 0 create X
+		{K: "dataset", Path: "/y", D: ySpec},                                                // 1 create Y
+		{K: "write", Path: "/x", Seed: 11, Mode: hist.ModeSeq},                              // 2 write X
+		{K: "write", Path: "/y", Seed: 22, Mode: hist.ModeSeq},                              // 3 write Y
+		{K: "attr", Path: "/x", Name: "ax", A: &hist.AttrVal{Kind: "str", N: 20, Seed: 1}},  // 4 attribute on X
 		{K: "attr", Path: "/y", Name: "ay", A: &hist.AttrVal{Kind: "[]f64", N: 5, Seed: 2}}, // 5 attribute on Y
-		{K: "hard", Path: "/lx", Target: "/x"},                                          // 6 hard link to X
-		{K: "resize", Path: "/x", Dims: []uint64{9}},                                    // 7 resize X
+		{K: "hard", Path: "/lx", Target: "/x"},                                              // 6 hard link to X
+		{K: "resize", Path: "/x", Dims: []uint64{9}},                                        // 7 resize X
 	}
 }
 
@@ -216,18 +229,34 @@ func ordersBody(t *testing.T) {
 func gen(t *rapid.T) Case {
 	c := Case{SB: rapid.SampledFrom([]int{2, 2, 0, 3}).Draw(t, "sb")}
 	type objInfo struct {
-		path    string
-		kind    string
+		path      string
+		kind      string
 		resizable bool
-		rank    int
-		spec    *hist.DSpec
+		rank      int
+		spec      *hist.DSpec
 	}
 	var objs []objInfo
 	nobj := rapid.IntRange(2, 6).Draw(t, "nobj")
 	attrNames := []string{"a", "b", "units", "long_attribute_name_0123456789", "c", "d", "e", "f", "g", "h", "i", "j"}
 	newObj := func(i int) hist.Op {
 		p := fmt.Sprintf("/o%d", i)
-		if rapid.IntRange(0, 4).Draw(t, "isGroup") == 0 {
+		switch rapid.IntRange(0, 9).Draw(t, "isGroup") {
+		case 0, 1:
+			objs = append(objs, objInfo{path: p, kind: "group"})
+			return hist.Op{K: "group", Path: p}
+		case 2:
+			// a new-style group with one or two members (the library's reader cannot list dense members: C03's open finding,
+			// ignored below); it is an object like any other for links, attributes and whatever is allocated behind it
+			var links [][2]string
+			for _, o := range objs {
+				if o.kind == "dataset" && len(links) < 2 {
+					links = append(links, [2]string{fmt.Sprintf("m%d", len(links)), o.path})
+				}
+			}
+			if len(links) > 0 { // the library refuses a dense group without links
+				objs = append(objs, objInfo{path: p, kind: "group"})
+				return hist.Op{K: "densegroup", Path: p, Links: links}
+			}
 			objs = append(objs, objInfo{path: p, kind: "group"})
 			return hist.Op{K: "group", Path: p}
 		}
@@ -249,6 +278,9 @@ func gen(t *rapid.T) Case {
 					d.MaxDims = append(d.MaxDims, hdf5.Unlimited)
 				}
 				info.resizable = true
+			}
+			if k, _ := d.Base(); k == "num" && rapid.IntRange(0, 3).Draw(t, "filtered") == 0 {
+				d.Filters = rapid.SampledFrom([][]string{{"shuffle"}, {"shuffle", "gzip:6"}, {"gzip:1"}, {"fletcher"}, {"shuffle", "fletcher"}}).Draw(t, "filters")
 			}
 		}
 		// one dataset in three is created from the very same dims/chunk/maxdims slice objects as an earlier dataset
@@ -320,7 +352,7 @@ func classify(c Case) (bool, []string) {
 	growthOnNonLast, resizes, links := 0, 0, 0
 	for _, op := range c.Ops {
 		switch op.K {
-		case "dataset", "group":
+		case "dataset", "group", "densegroup":
 			created = append(created, op.Path)
 		case "write":
 			withData[op.Path] = true
